@@ -218,7 +218,7 @@ vmcoreinfo_raw_post_hook(kdump_ctx_t *ctx, struct attr_data *rawattr)
 	const char *p, *endp, *endl, *val;
 	size_t len;
 	struct attr_data *dir;
-	kdump_status res;
+	kdump_status res = KDUMP_OK;
 
 	dir = rawattr->parent;
 	dealloc_vmcoreinfo(dir);
